@@ -12,11 +12,11 @@ import (
 
 func init() {
 	register(&PropRules{
-		ID: "C17",
+		ID:      "C17",
 		Explain: "No password failing the policy is stored — structural part: (C17.1) every call of lib.Dir.Init/AddUser/UpdateUser in the agent is reachable only under s.policy.Check(pw, user) ok ∧ err==nil, with pw and user the very values then written and in (password, username) order; (C17.2) those three library writers (and UserHash.Add/Update, NewUserHash) have no other caller in cmd/whawty-auth; (C17.3) configuration errors are fatal: NewStore returns NewPasswordPolicy's error before starting the dispatcher, s.policy has no other writer, an unknown policy type or a malformed condition yields a non-nil error, and every accepting path of the condition parser has established 3 fields, operator \">=\", a parsed threshold and one of the three known kinds; (C17.4) comparator table: score/entropy/time select the functions comparing Score/Entropy/CrackTime with >= threshold, and zxcvbnPolicy.Check returns exactly that comparison for zxcvbn.PasswordStrength(password, {username, …}).",
-		Undec: []string{"zxcvbn's scoring itself", "whether a given password meets a given threshold (run-time value)"},
-		Run:   runC17,
-		Floors: map[string]int{"C17.1": 3, "C17.2": 3, "C17.3": 4, "C17.4": 4},
+		Undec:   []string{"zxcvbn's scoring itself", "whether a given password meets a given threshold (run-time value)"},
+		Run:     runC17,
+		Floors:  map[string]int{"C17.1": 3, "C17.2": 3, "C17.3": 4, "C17.4": 4},
 	})
 }
 
@@ -30,8 +30,8 @@ func runC17(c *an.Ctx, p *an.Prog, thorough bool) {
 	okFns := map[*ssa.Function]bool{}
 	// C17.1
 	for _, fn := range pkgFns(p, mainPkg) {
-		for _, b := range fn.Blocks {
-			for _, in := range b.Instrs {
+		for _, in := range an.DeepInstrs(fn) {
+			{
 				ci, ok := in.(ssa.CallInstruction)
 				if !ok || !libWriters[an.CalleeName(ci)] {
 					continue
@@ -149,8 +149,8 @@ func c173(c *an.Ctx, p *an.Prog) {
 		// the value stored to s.policy is NewPasswordPolicy's result
 		nst := 0
 		for _, fn := range pkgFns(p, mainPkg) {
-			for _, b := range fn.Blocks {
-				for _, in := range b.Instrs {
+			for _, in := range an.DeepInstrs(fn) {
+				{
 					st, ok := in.(*ssa.Store)
 					if !ok {
 						continue
